@@ -100,18 +100,46 @@ Proof. exact json_to_msgpack_same_value. Qed.
    for non-finite values, otherwise the shortest decimal that reads back, nearest
    to the value, ties to the even digit string, in ryu's five layouts; diffed
    against the implementation by the RY and MJ correspondences): the reader model
-   reads the text back to the identical 64 bits, for every binary64 on which the
-   model's bounded search for the shortest digits succeeds ([ryu_ok]; that it
-   succeeds for every finite value is measured, not proved). *)
-From XtModel Require Import JsonFloatModel JsonFloatProofs.
+   reads the text back to the identical 64 bits, for EVERY finite binary64: the
+   model's search for the shortest digits never fails (ryu_ok_total in
+   theories/JsonFloatTotalProofs.v: the 18-digit truncation of the exact value is
+   within an eighth of a unit in the last place below it, so the correctly
+   rounded conversion returns the value itself). *)
+From XtModel Require Import JsonFloatModel JsonFloatProofs JsonFloatTotalProofs.
 
 Theorem C01_json_float_spelling_reads_back :
-  forall b, ryu_ok b = true -> forall f depth tail, val_end tail ->
+  forall b, f_finite b = true -> forall f depth tail, val_end tail ->
     parse_value (S f) depth (json_f64 b ++ tail) = ([EF64 b], JOk tail).
-Proof. exact json_f64_reads. Qed.
+Proof. exact json_f64_reads_all. Qed.
+
+Theorem C01_float_spelling_exists_for_every_finite_value :
+  forall b, f_finite b = true -> ryu_ok b = true.
+Proof. exact ryu_ok_total. Qed.
+
+(* JSON input: the decimal -> binary64 conversion of the reader model is correctly
+   rounded (theories/F64Proofs.v).  For a literal with digits D (D > 0) and
+   decimal exponent E inside the range the conversion computes on, a result
+   [Some a] means: at a scale s <= 1074 that is normalised (the quotient has 53
+   bits, or s is the subnormal scale 2^-1074), the significand q' is the integer
+   nearest to D * 10^E * 2^s, the even one on a tie, and a's exponent field and
+   fraction decode to q' * 2^-s (to 2^52 * 2^(1-s) when rounding carried into
+   the next binade). *)
+From XtModel Require Import F64Proofs.
+
+Theorem C01_json_decimal_correctly_rounded :
+  forall (D : N) (E : Z) (a : N),
+    D <> 0%N -> dec_in_range D E = true -> f64_of_decimal D E = Some a ->
+    let num := dec_num D E in let den := dec_den E in
+    exists (s : Z) (q' : N),
+      (s <= 1074)%Z /\ normalised num den s /\
+      nearest_even (sc_n num s) (sc_d den s) q' /\
+      (a < inf_bits)%N /\
+      ((q' < 2 ^ 53 /\ f_mant a = q' /\ f_exp2 a = (- s)%Z) \/
+       (q' = 2 ^ 53 /\ f_mant a = 2 ^ 52 /\ f_exp2 a = (1 - s)%Z))%N.
+Proof. exact f64_of_decimal_correctly_rounded. Qed.
 
 (* so the read-back theorem holds with floats inside, no premise left *)
 Theorem C01_json_reads_what_was_written_with_floats :
-  forall (v : jval) (tail : bytes), writable ryu_ok v -> val_end tail ->
+  forall (v : jval) (tail : bytes), writable f_finite v -> val_end tail ->
     json_value (jwrite json_f64 v ++ tail) = (jevs v, JOk tail).
-Proof. exact (json_value_reads_back json_f64 ryu_ok json_f64_reads json_f64_head). Qed.
+Proof. exact (json_value_reads_back json_f64 f_finite json_f64_reads_all json_f64_head_all). Qed.
